@@ -304,7 +304,7 @@ func execMetric(p MProg) (*mhist, func()) {
 		for i, op := range p.Gs[g] {
 			vk.Perturb(op.P)
 			h.gs[g][i].G, h.gs[g][i].I = g, i
-			do(op, &h.gs[g][i], &slots)
+			guard(&h.gs[g][i], func() { do(op, &h.gs[g][i], &slots) })
 		}
 	}
 	if len(p.Gs) == 1 {
@@ -316,7 +316,7 @@ func execMetric(p MProg) (*mhist, func()) {
 	var ps [4]handle
 	for i, op := range p.Post {
 		h.post[i].G, h.post[i].I = -2, i
-		do(op, &h.post[i], &ps)
+		guard(&h.post[i], func() { do(op, &h.post[i], &ps) })
 	}
 	// give a periodic reader that (wrongly) survived its Shutdown the chance to show up
 	for _, k := range p.Readers {
@@ -386,7 +386,7 @@ func isReaderShutdown(err error) bool { return errors.Is(err, sdkmetric.ErrReade
 // general history oracle below is exact.
 
 func oracleMetric(h *mhist) ([]vk.Violation, map[string]bool) {
-	var vs []vk.Violation
+	vs := panicViolations(h.calls())
 	cl := map[string]bool{}
 	bad := func(kind, format string, a ...any) { vs = append(vs, vk.V(kind, format, a...)) }
 	calls := h.calls()
@@ -621,7 +621,8 @@ func genReaders(t *rapid.T) []int {
 
 func genMetricSeq(t *rapid.T) MProg {
 	p := MProg{Readers: genReaders(t)}
-	p.Gs = [][]MOp{rapid.SliceOfN(genRawMOp(false), 1, 50).Draw(t, "ops")}
+	minLen := rapid.SampledFrom([]int{1, 1, 10, 20}).Draw(t, "min_ops")
+	p.Gs = [][]MOp{rapid.SliceOfN(genRawMOp(false), minLen, 50).Draw(t, "ops")}
 	normaliseM(&p)
 	return p
 }
@@ -659,7 +660,7 @@ func TestMetricLifecycle(t *testing.T) {
 		Property: "C15", Check: "metric_lifecycle",
 		Rule: "generated op lists (1-50 ops: Meter / create Int64Counter / Add / reader.Collect / provider ForceFlush / provider Shutdown / reader.Shutdown directly, with live or already-cancelled contexts, repeated) on a MeterProvider with 0-3 readers drawn from ManualReader, PeriodicReader(recording exporter, 1h) and PeriodicReader(recording exporter, 1ms); " +
 			"non-trivial = at least one reader, a provider Shutdown with a live context returned nil/ErrReaderShutdown and an Add / instrument creation / Collect follows it; distinct = distinct case encodings",
-		Quick: 4000, Thorough: 60000,
+		Quick: 3000, Thorough: 40000,
 		Gen: genMetricSeq, Run: runMetricSeq,
 		CaseTimeout: 30 * time.Second,
 	})
